@@ -19,6 +19,13 @@ type c09Pair struct {
 	Old   *TableSpec `json:"old,omitempty"` // nil = blank disk
 	New   *TableSpec `json:"new"`
 	Class string     `json:"class"`
+	// Older, when set, gives the old table a past: Older was on the disk, the write of Old over it was cut
+	// off after the primary entry array and before the primary header (so that reading falls back to the
+	// backup copy), the table read back was written again to repair the primary copy, and only then does
+	// the write of New start
+	Older *TableSpec `json:"older,omitempty"`
+	// Edit: the new table is not a fresh Table value but the one read from the disk, edited and written
+	Edit bool `json:"edit,omitempty"`
 }
 
 func c09Table(r gen.R, lss int, dev int64, n int) *TableSpec {
@@ -89,6 +96,13 @@ func c09Pairs(seed int64, n int) []c09Pair {
 			p = c09Pair{Old: c09Table(r, lss, dev, 0), New: c09Table(r, lss, dev, r.Range(1, 128)), Class: "empty->table"}
 		default:
 			p = c09Pair{Old: c09Table(r, lss, dev, r.Range(1, 128)), New: c09Table(r, lss, dev, r.Range(1, 128)), Class: "random->random"}
+		}
+		if p.Old != nil && i%3 != 0 {
+			p.Older = c09Table(r, lss, dev, r.Range(1, 20))
+			p.Class += "/old-table-repaired"
+		}
+		if p.Old != nil && i%2 == 1 {
+			p.Edit = true
 		}
 		out = append(out, p)
 	}
@@ -189,11 +203,95 @@ func c09RunPair(res *core.Result, p c09Pair) {
 			return
 		}
 	}
+	if p.Old != nil && p.Older != nil {
+		st = monstore.NewMem(t.DevSize)
+		if err, pi := writeTable(st, p.Older); err != nil || pi != nil {
+			res.Inconclusive = fmt.Sprintf("older table refused: %v %v", err, pi)
+			return
+		}
+		before := st.Bytes()
+		st.SetJournal(true)
+		if err, pi := writeTable(st, p.Old); err != nil || pi != nil {
+			res.Inconclusive = fmt.Sprintf("old table refused: %v %v", err, pi)
+			return
+		}
+		st.SetJournal(false)
+		for _, e := range st.Journal {
+			if e.Kind != 'S' && c09Region(e.Off, p.Old) != "primary-header" {
+				copy(before[e.Off:], e.Data)
+			}
+		}
+		st = monstore.NewMem(t.DevSize)
+		st.Poke(before, 0)
+		var gt *gpt.Table
+		var gerr error
+		var pi *core.PanicInfo
+		pi = core.Guard(func() { gt, gerr = gpt.Read(file.New(st, true), p.Old.LSS, p.Old.PSS) })
+		switch {
+		case pi != nil || gerr != nil:
+			fail("history", "read-after-cut-write", "the write of the old table over an older one was cut off before the primary header: gpt.Read fails (%v %v)", gerr, pi)
+			return
+		case !gt.RecoveredFromBackup:
+			res.Count("history.cut_write_not_read_from_backup", 1)
+		default:
+			var werr error
+			pi = core.Guard(func() {
+				w, e := file.New(st, false).Writable()
+				if e != nil {
+					werr = e
+					return
+				}
+				werr = gt.Write(w, t.DevSize)
+			})
+			if pi != nil || werr != nil {
+				fail("history", "repair-write-refused", "writing the table that was read from the backup copy again fails: %v %v", werr, pi)
+				return
+			}
+			var g2 *gpt.Table
+			pi = core.Guard(func() { g2, gerr = gpt.Read(file.New(st, true), p.Old.LSS, p.Old.PSS) })
+			switch {
+			case pi != nil || gerr != nil:
+				fail("completed", "repair/error", "after writing the table read from the backup copy again gpt.Read fails: %v %v", gerr, pi)
+				return
+			case !c09Matches(g2, p.Old):
+				fail("completed", "repair/not-the-table", "after writing the table read from the backup copy again gpt.Read returns another table")
+				return
+			case g2.RecoveredFromBackup:
+				fail("completed", "repair/read-from-backup", "after writing the table read from the backup copy again the table is still read from the backup copy")
+				return
+			}
+			res.Count("history.old_table_repaired_from_backup", 1)
+			res.Mark("old table once cut off, read from the backup copy and written again")
+		}
+	}
 	durable := st.Bytes()
 	st.SetJournal(true)
+	st.ResetJournal()
 	tn := *t
 	tn.ViaDisk = false
-	if err, pi := writeTable(st, &tn); err != nil || pi != nil {
+	if p.Edit && p.Old != nil {
+		var gt *gpt.Table
+		var err error
+		pi := core.Guard(func() {
+			gt, err = gpt.Read(file.New(st, true), t.LSS, t.PSS)
+			if err != nil {
+				return
+			}
+			nt := buildGPT(&tn)
+			gt.Partitions, gt.GUID, gt.ProtectiveMBR = nt.Partitions, nt.GUID, nt.ProtectiveMBR
+			w, e := file.New(st, false).Writable()
+			if e != nil {
+				err = e
+				return
+			}
+			err = gt.Write(w, t.DevSize)
+		})
+		if err != nil || pi != nil {
+			res.Inconclusive = fmt.Sprintf("edited table refused: %v %v", err, pi)
+			return
+		}
+		res.Mark("new table = the table read from the disk, edited")
+	} else if err, pi := writeTable(st, &tn); err != nil || pi != nil {
 		res.Inconclusive = fmt.Sprintf("new table refused: %v %v", err, pi)
 		return
 	}
@@ -406,7 +504,7 @@ func c09RunPair(res *core.Result, p c09Pair) {
 	case gt.RecoveredFromBackup:
 		fail("completed", "read-from-backup", "after the completed Write the table is read from the backup copy")
 	}
-	res.Mark("pair " + p.Class)
+	res.Mark("pair " + strings.TrimSuffix(p.Class, "/old-table-repaired"))
 	res.Mark(fmt.Sprintf("lss %d", t.LSS))
 }
 
@@ -414,10 +512,10 @@ func init() {
 	core.Register(&core.Check{
 		ID:    "C09",
 		Level: "fault_enumeration",
-		Rule: "pairs (old GPT, new GPT) differing in partition count (0..128), geometry, one name, disk GUID only, plus blank disk -> table, on 1-8 MiB devices with 512/4096-byte sectors; the journal of WriteAt/Sync issued by the real Table.Write is recorded by the instrumented store; for every journal prefix and for the in-flight set (all writes since the last Sync) every member of the sector-subset family {none, all, each single sector persisted, each single sector lost, first-k, last-k, alternating; all subsets when <= 12 sectors} at 512-byte and at logical-sector granularity, the device is reconstructed and read by gpt.Read and partition.Read; non-trivial/distinct = a crash state in which the in-flight write is partially persisted (torn); distinct = distinct (pair, journal position, subset pattern); journal shapes are counted as well",
+		Rule: "pairs (old GPT, new GPT) differing in partition count (0..128), geometry, one name, disk GUID only, plus blank disk -> table; two thirds of the old tables have a past (an older table, a write cut off between the primary entry array and the primary header, the table read back from the backup copy and written again) and half of the new tables are the table read from the disk, edited, instead of a fresh value; on 1-8 MiB devices with 512/4096-byte sectors; the journal of WriteAt/Sync issued by the real Table.Write is recorded by the instrumented store; for every journal prefix and for the in-flight set (all writes since the last Sync) every member of the sector-subset family {none, all, each single sector persisted, each single sector lost, first-k, last-k, alternating; all subsets when <= 12 sectors} at 512-byte and at logical-sector granularity, the device is reconstructed and read by gpt.Read and partition.Read; non-trivial/distinct = a crash state in which the in-flight write is partially persisted (torn); distinct = distinct (pair, journal position, subset pattern); journal shapes are counted as well",
 		Assumptions: []string{"sector writes are atomic at 512 bytes; a Sync makes all earlier writes durable; writes not separated by a Sync may persist in any subset", "old and new tables always carry explicit disk and partition GUIDs so that equality is exact"},
 		MinSigs:   map[string]int{"quick": 5000, "thorough": 100000},
-		NeedMarks: []string{"fallback to backup used", "pair blank->table", "pair same-array-new-disk-guid", "lss 512", "lss 4096"},
+		NeedMarks: []string{"old table once cut off, read from the backup copy and written again", "new table = the table read from the disk, edited", "fallback to backup used", "pair blank->table", "pair same-array-new-disk-guid", "lss 512", "lss 4096"},
 		Cases: func(seed int64, tier string) []core.Case {
 			n := 96
 			if tier == "thorough" {
